@@ -64,6 +64,14 @@ PROPS['C06'].update({
     'level_note': 'Trusted: Coq kernel (vm_compute for the 64x256 table sweeps, domain stated in the lemmas); the regenerated tables are values observed from the running code via the verif hook; Go array indexing/shift semantics as modelled in Model/Bits.v and Model/Attacks.v, exercised by the sweep. FindPins/FindCapture are covered by correspondence only so far.',
 })
 
+PROPS['C08'].update({
+    'coq_targets': ['Properties/C08.vo', 'Impl/ImplBoard.vo'],
+    'obligation_files': ['Properties/C08.v', 'Impl/ImplBoard.v', 'Lemmas/BoardHeap4.v'],
+    'level': 'proof',
+    'level_text': 'Proof on the heap model of the board (nodes shared between a board and its forks exactly as the Go pointers are): push followed by pop restores every getter and the heap itself up to one garbage node; every balanced nest of push/pop/adjudicate is the identity up to the result field and play continues identically; a fork reports what its parent reports, gets the same verdicts for the same moves (common past), and any operation sequence on either board that stays above the fork point leaves the other board s view unchanged (frame theorem). The model is run against Go on operation scripts with every getter observed after every operation.',
+    'level_note': 'Hypotheses: wf (established by NewBoard, preserved by every operation - proved) and castle_ok (a side that has castled does not castle again; automatic for games from legal positions, violated only from FENs granting castling rights to a king off its home square - counterexample kept in BoardHeap4). Result is restored as Undecided (property: a not-drawn result). Popping below a fork point is excluded by the statement and by Fork s comment. Trusted: Coq kernel, harness, model of pointer sharing as list indices.',
+})
+
 # Every listed property is claimed; reasons would go here otherwise.
 NOT_APPLICABLE = [
     {'property_id': pid, 'reason': 'check not built yet in this session (work in progress; see DESIGN.md section 9)'}
